@@ -107,11 +107,11 @@ Print Assumptions C04_cross_decode.
 (* every v1 claims value of the four migratable kinds: the v2 loader accepts what the v1 encoder wrote *)
 Theorem C04_v1_payload_loads : forall k st c1 j,
   shadow_of k = Some st ->
-  has_type (sch1_of k) c1 = true -> scopes_ok (sch1_of k) c1 = true -> enc (sch1_of k) c1 = Some j ->
+  has_type (sch1_of k) c1 = true -> enc (sch1_of k) c1 = Some j ->
   exists w, dec st j (preset_v1 k) = Some w /\ ag st (sch1_of k) (preset_v1 k) w c1 /\
             load_v1 k j = Some (migrate k w).
 Proof.
-  intros k st c1 j Hs Ht Hsc He. destruct (v1_reaches_shadow k st c1 j Hs Ht Hsc He) as [w [Hd [Ha _]]].
+  intros k st c1 j Hs Ht He. destruct (v1_reaches_shadow k st c1 j Hs Ht He) as [w [Hd [Ha _]]].
   exists w. repeat split; try assumption. unfold load_v1. now rewrite Hs, Hd.
 Qed.
 Print Assumptions C04_v1_payload_loads.
@@ -122,7 +122,7 @@ Print Assumptions C04_v1_payload_loads.
    otherwise the v2 field agrees with the v1 field x1 *)
 Theorem C04_v1_field_reaches_v2 : forall k st c1 j p2 p1,
   shadow_of k = Some st ->
-  has_type (sch1_of k) c1 = true -> scopes_ok (sch1_of k) c1 = true -> enc (sch1_of k) c1 = Some j ->
+  has_type (sch1_of k) c1 = true -> enc (sch1_of k) c1 = Some j ->
   In (p2, p1) (expected_copies k) ->
   exists d, load_v1 k j = Some d /\
   exists x2 x0 sty r,
@@ -147,7 +147,7 @@ Theorem C04_v1_token_accepted : forall (jparse : string -> option json) (jprint 
     k st c1 j issuer,
   (forall x, jparse (jprint x) = Some x) ->
   shadow_of k = Some st ->
-  has_type (sch1_of k) c1 = true -> scopes_ok (sch1_of k) c1 = true ->
+  has_type (sch1_of k) c1 = true ->
   getp (sch1_of k) ["type"] c1 = Some (VStr (kind_name k)) ->
   getp (sch1_of k) ["iss"] c1 = Some (VStr issuer) -> issuer <> "" ->
   enc (sch1_of k) c1 = Some j ->
@@ -166,7 +166,7 @@ Print Assumptions C04_v1_token_accepted.
 
 (* the hypotheses are satisfiable, and the subs / data limits are members the v1 user type does not have *)
 Example C04_cross_nonvacuous :
-  (exists c1 j, has_type (sch1_of KUser) c1 = true /\ scopes_ok (sch1_of KUser) c1 = true /\ enc (sch1_of KUser) c1 = Some j) /\
+  (exists c1 j, has_type (sch1_of KUser) c1 = true /\ enc (sch1_of KUser) c1 = Some j) /\
   map (wty 8 sch1_user) [["nats"; "subs"]; ["nats"; "data"]] = [Some None; Some None].
 Proof. split; [exists (zero_val sch1_user); eexists; repeat split; vm_compute; reflexivity | exact legacy_absent]. Qed.
 
@@ -202,3 +202,4 @@ Example C04_ex_user_unlimited :
                           ("nats", JObj [("max", JInt 5); ("src", JStr "10.0.0.0/8, 192.168.0.0/16")])]))
   = Some (-1, -1, 1, "user").
 Proof. vm_compute. reflexivity. Qed.
+Print Assumptions C04_legacy_presets.
